@@ -248,3 +248,10 @@ func AdvanceTime(d time.Duration) int { time.Sleep(d); return 0 }
 // (one preemption each), not only when every goroutine is blocked: a deadline
 // that expires while the work it guards is still in progress.
 func TimersRacy(b bool) {}
+
+// SetProcess(n): goroutines started while the calling goroutine carries tag n
+// belong to process n (inherited transitively). KillProcess(n) stops all of
+// them for good - a crashed process; its timers never fire again. Symbolic
+// executor only (natively no-ops: a goroutine cannot be killed from outside).
+func SetProcess(n int)  {}
+func KillProcess(n int) {}
